@@ -4,6 +4,7 @@ Suite `serde`: (class, kwargs) -> instance -> Serializer -> Deserializer round t
 Mapper-free (mappers: suite `mapper`).  Serves C05, C06 (and C10 with the trusted/fast variants).
 """
 import collections
+import copy
 import json
 
 from typedpy import Deserializer, Serializer, serialize
@@ -253,13 +254,13 @@ def gen_cases(rng, tier, n_classes, lossy=0.2):
             for tag, d in docs:
                 d = dedupe_doc(d)
                 cases.append({"suite": "serde", "mode": "deser", "stream": tag, "cls": cls, "doc": d,
-                              "opts": rng.choice(opts_list), "re": gen.re_table(cls, d)})
+                              "opts": rng.choice(opts_list), "re": gen.re_table(cls, d), "warmup": rng.random() < 0.3})
             for d in nested_extra_docs(dedupe_doc(doc)):
                 d = dedupe_doc(d)
                 for o in ({"keepUndefined": True, "ignoreInvalidAddl": False}, {"keepUndefined": True, "ignoreInvalidAddl": True},
                           {"keepUndefined": False, "ignoreInvalidAddl": False}):
                     cases.append({"suite": "serde", "mode": "deser", "stream": "nested-extra", "cls": cls, "doc": d,
-                                  "opts": o, "re": gen.re_table(cls, d)})
+                                  "opts": o, "re": gen.re_table(cls, d), "warmup": rng.random() < 0.5})
         cases.append({"suite": "serde", "mode": "deser", "stream": "non-object", "cls": cls,
                       "doc": rng.choice([None, 1, "s", {"l": []}, {"l": [{"m": []}]}, True]),
                       "opts": rng.choice(opts_list), "re": []})
@@ -335,6 +336,17 @@ def run_impl(case):
             except TypeError as e:    # e.g. a list as a dict key: not a Python document at all
                 return {"unbuildable": f"document: {e}"}
             before = json.dumps(dump.dump_value(doc, ctx), sort_keys=True)
+            if case.get("warmup"):
+                # history: the SAME class objects were used before under the other settings of the flags (a verdict
+                # cached per class must not survive a change of the configuration)
+                want = TypedPyDefaults.ignore_invalid_additional_properties_in_deserialization
+                TypedPyDefaults.ignore_invalid_additional_properties_in_deserialization = not want
+                for ku2 in (True, False, None):
+                    try:
+                        Deserializer(cls).deserialize(copy.deepcopy(doc), keep_undefined=ku2)
+                    except Exception:
+                        pass
+                TypedPyDefaults.ignore_invalid_additional_properties_in_deserialization = want
             try:
                 y = Deserializer(cls).deserialize(doc, keep_undefined=ku)
                 res["deser"] = {"ok": C.rename_inline(dump.dump_value(y, ctx), ctx)}
